@@ -21,7 +21,10 @@ def add_inline(rng, proj, fs, frac=0.4, unmatched=2, in_headers=True):
             continue
         if rng.random() < frac:
             form = rng.random()
-            if form < 0.7:
+            if f.symbols and form < 0.15:
+                # with a symbol name: travels through Suppression::toString()/parseLine() between worker and parent
+                txt = '// cppcheck-suppress %s symbolName=%s' % (f.id, f.symbols[0])
+            elif form < 0.7:
                 txt = '// cppcheck-suppress %s' % f.id
             elif form < 0.85:
                 txt = '/* cppcheck-suppress %s */' % f.id
